@@ -197,7 +197,7 @@ def main(argv=None):
     # 2. generated search
     specs = mod.shards(tier)
     jobs = [(modname, spec, seed, i, deadline_ts) for i, spec in enumerate(specs)]
-    nproc = int(os.environ.get('VERIF_PROCS', '16'))
+    nproc = min(int(os.environ.get('VERIF_PROCS', '16')), getattr(mod, 'PROCS', 16))
     ctx = multiprocessing.get_context('fork')
     if nproc <= 1 or len(jobs) <= 1:
         results = [_worker(j) for j in jobs]
